@@ -121,15 +121,18 @@ func goNums(v interface{}, seed uint64) interface{} {
 // ---- typed documents (reflection paths of the interpreter) ----
 
 // TTag is embedded in TObj: its fields are promoted (index paths of length 2).
+// Struct tags: the unchanged library ignores them; a tree that learns to honour `json`
+// tags (or any other per-type field index) gets names that differ from the lower-cased
+// field name, two crossed names and a hidden field to build its index from.
 type TTag struct {
-	Tag string
-	W   float64
+	Tag string  `json:"tag"`
+	W   float64 `json:"weight,omitempty"`
 }
 
 type TObj struct {
-	K float64
-	S string
-	T []int
+	K float64 `json:"k"`
+	S string  `json:"s"`
+	T []int   `json:"t,omitempty"`
 	TTag
 }
 
@@ -145,6 +148,10 @@ type TDoc struct {
 	Any   []interface{}
 	S     string
 	N     float64
+	Full  string `json:"full_name"`
+	X1    string `json:"x2"`
+	X2    string `json:"x1"`
+	Hid   string `json:"-"`
 }
 
 func buildTyped(name string, seed uint64) interface{} {
@@ -163,6 +170,7 @@ func buildTyped(name string, seed uint64) interface{} {
 			Any:   []interface{}{map[string]interface{}{"k": 2.0}, map[string]interface{}{"k": 1.0}, map[string]interface{}{"k": 3.0}},
 			S:     "héllo",
 			N:     -3.5,
+			Full:  "Ada Lovelace", X1: "one", X2: "two", Hid: "hidden",
 		}
 	}
 	switch name {
@@ -215,7 +223,7 @@ func mkTDocSeeded(seed uint64) *TDoc {
 			return 17 + int(next()%24)
 		}
 	}
-	d := &TDoc{S: "héllo", N: -3.5, P: &TObj{7, "p", []int{4, 5}, TTag{"t" + "p", 1}}}
+	d := &TDoc{S: "héllo", N: -3.5, Full: "Ada Lovelace", X1: "one", X2: "two", Hid: "hidden", P: &TObj{7, "p", []int{4, 5}, TTag{"t" + "p", 1}}}
 	d.Nums = make([]float64, n())
 	for i := range d.Nums {
 		d.Nums[i] = float64(next() % 50)
@@ -290,6 +298,7 @@ var typedExprs = []string{
 	"objs[*].abs(s)", "nums[?@ > `1`]", "strs[?@ == 'a']", "p || nilP", "nilP || p", "nilP && p", "length(objs)", "reverse(objs)", "sort_by(objs, &k)", "max_by(objs, &k)", "map(&k, objs)", "to_array(nums)", "not_null(nilP, nums)",
 	"objs[*].tag", "objs[0].tag", "p.tag", "p.w", "objs[*].w", "pObjs[*].tag", "objs[?w > `0`].tag", "sort_by(objs, &w)", "objs[*].tTag", "objs[*].tTag.tag", "p.tTag", "[*].tag", "[0].w", "ptr.p.tag", "objs[*].[k, tag]", "objs[*].{t: tag, k: k}",
 	"ports == `[80, 443]`", "nums == nums", "objs[0] == objs[1]", "nums[0] == `3`", "nums != strs", "[?k == `2`]", "any[?k == `2`]", "m.a == `[3,1,2]`", "any == any", "n == `-3.5`", "objs[?k >= `2`].s",
+	"full_name", "full", "x1", "x2", "hid", "[x1, x2, full_name, full, hid]", "objs[*].weight", "p.weight", "ptr.full_name", "ptr.x1", "{a: x1, b: x2}", "objs[?weight > `0`].tag",
 	"objs[*].k", "ptr.p.s", "ptr.objs[*].s", "nums[0]", "gen | sort_by(@, &@)", "sort_by(gen, &@)", "reverse(gen)", "sort(gen)", "reverse(nums)", "to_string(ptr.p)",
 }
 
